@@ -73,20 +73,27 @@ def tok_pitch(X, st, e):
     return Num(Token.n_p(_tokterm(X.ev(e.args[0], st))))
 
 
-def _fold(X, st, selfv, toks):
-    """the 7 component functions of the decoder fold over `toks`, with their recursion axioms"""
-    # the fold is over the content the list had in the ENTRY state of the function under verification (named heap, see
-    # DESIGN 2.7 lesson 3); the code's reads of tokens[i] are related to it by the frame invariant on lists
-    h0 = st.meta.get("old_heap", st.heap)
+def _fold(X, st, selfv, toks, current=False, init_env=None):
+    """the 7 component functions of the decoder fold over `toks`, with their recursion axioms.
+    current=False: over the content the list had in the ENTRY state (named heap, DESIGN 2.7 lesson 3);
+    current=True : over its content in the state of evaluation (a list under construction) -- every pair of such folds gets the
+                   instance of lemma dfold_ext (equal prefixes give equal folds), proved by induction in this file.
+    init_env: ghost initial state (names g_time, ...) instead of the decoder's start state."""
+    h0 = st.heap if current else st.meta.get("old_heap", st.heap)
     el = h0["@el"][toks.v]
     cache = X.__dict__.setdefault("_dfold", {})
-    key = (el.get_id(), selfv.v.get_id(), h0["ppqn"].get_id())
+    hp = st.meta.get("old_heap", st.heap)
+    key = (el.get_id(), selfv.v.get_id(), hp["ppqn"].get_id(), bool(init_env))
     if key in cache:
-        return cache[key]
+        return cache[key][:2]
     F = {c: z3.Function(f"D_{c}{len(cache)}", I, I) for c in COMPS}
     k = z3.Int("k!df")
-    t = tok_dec(el[k])
-    T, TB, CT, CR, TR, VA, VE = (F[c](k) for c in COMPS)
+
+    def step(elarr, kk):
+        t = tok_dec(elarr[kk])
+        T, TB, CT, CR, TR, VA, VE = (F[c](kk) for c in COMPS)
+        return t, (T, TB, CT, CR, TR, VA, VE)
+    t, (T, TB, CT, CR, TR, VA, VE) = step(el, k)
     capn = _cap(X, st, selfv, Token.tsg_n(t), Token.tsg_d(t))
     isn = Token.is_note(t)
     nxt = {
@@ -98,14 +105,27 @@ def _fold(X, st, selfv, toks):
         "val": z3.If(Token.is_val(t), Token.val_v(t), z3.If(z3.And(isn, Token.n_fv(t)), Token.n_v(t), VA)),
         "vel": z3.If(Token.is_vel(t), Token.vel_v(t), z3.If(z3.And(isn, Token.n_fw(t)), Token.n_w(t), VE)),
     }
-    cap0 = _cap(X, st, selfv, z3.IntVal(X.ctx.consts["settings"]["DEFAULT_TIME_SIGNATURE_NUMERATOR"]), z3.IntVal(X.ctx.consts["settings"]["DEFAULT_TIME_SIGNATURE_DENOMINATOR"]))
-    init = {"time": 0, "time_bar": 0, "cap_total": cap0, "cap_rem": cap0, "trk": 0, "val": 24, "vel": 127}
+    if init_env:
+        init = {c: init_env["g_" + c].v for c in COMPS}
+    else:
+        cap0 = _cap(X, st, selfv, z3.IntVal(X.ctx.consts["settings"]["DEFAULT_TIME_SIGNATURE_NUMERATOR"]), z3.IntVal(X.ctx.consts["settings"]["DEFAULT_TIME_SIGNATURE_DENOMINATOR"]))
+        init = {"time": 0, "time_bar": 0, "cap_total": cap0, "cap_rem": cap0, "trk": 0, "val": 24, "vel": 127}
     ax = [F[c](0) == init[c] for c in COMPS]
     ax += [safe_forall([k], z3.Implies(k >= 0, F[c](k + 1) == nxt[c]), patterns=[F[c](k + 1)]) for c in COMPS]
     ax += enc_axioms()
-    cache[key] = (F, ax)
+    if current:
+        n, j = z3.Int("n!df"), z3.Int("j!df")
+        for okey, (G, gax, gel, gcur) in list(cache.items()):
+            if not gcur or okey[1:] != key[1:]:
+                continue
+            for (A, elA, Bf, elB) in ((G, gel, F, el), (F, el, G, gel)):
+                hyp = safe_forall([j], z3.Implies(z3.And(0 <= j, j < n), elA[j] == elB[j]))
+                concl = z3.And([Bf[c](n) == A[c](n) for c in COMPS])
+                ax.append(safe_forall([n], z3.Implies(z3.And(n >= 0, hyp), concl), patterns=[A["time"](n)]))
+            X.notes.append("L: instances of lemma dfold_ext relate the decoder folds of a token list under construction")
+    cache[key] = (F, ax, el, current)
     X.notes.append("spec: dfold = left fold of the property-level decoder step over the token list (recursion axioms)")
-    return cache[key]
+    return cache[key][:2]
 
 
 def _use(st, ax):
@@ -180,3 +200,156 @@ contract(f"{TK}.detokenise", params={"self": f"ref:{TK}", "tokens": "list:tok"},
              "L3": dict(fingerprint="for sequence in sequences", inv=[("sequences", SEQS_LIGHT("sequences", "self.num_tracks")), ("clock_kept", "cur_time == entry(cur_time)")]),
          },
          props=["C19", "C02", "C01"])
+
+
+@specfun
+def dfold_g(X, st, e):
+    """decoder fold over the CURRENT content of a token list, started from the ghost state g_* (the state the previous calls left)"""
+    selfv, toks, k = X.ev(e.args[0], st), X.ev(e.args[1], st), X.ev(e.args[2], st)
+    comp = e.args[3].value
+    genv = st.meta.get("old_env", st.env)
+    F, ax = _fold(X, st, selfv, toks, current=True, init_env={n: genv[n] for n in genv if n.startswith("g_")})
+    _use(st, ax)
+    return Num(F[comp](k.v))
+
+
+@lemma("dfold_ext", ["C01", "C03", "C19"])
+def dfold_ext(ctx):
+    """two decoder folds with the same start state over token arrays that agree on [0, n) agree on [0, n]  (induction on k;
+    the bar-capacity function is abstract here, so the lemma covers every configuration)"""
+    A, Bq = z3.Array("A", I, I), z3.Array("B", I, I)
+    cap = z3.Function("cap", I, I, I)
+    FA = {c: z3.Function("FA_" + c, I, I) for c in COMPS}
+    FB = {c: z3.Function("FB_" + c, I, I) for c in COMPS}
+    k, n, b = z3.Ints("k n b")
+
+    def axioms(F, arr):
+        t = tok_dec(arr[k])
+        T, TB, CT, CR, TR, VA, VE = (F[c](k) for c in COMPS)
+        capn = cap(Token.tsg_n(t), Token.tsg_d(t))
+        isn = Token.is_note(t)
+        nxt = {"time": z3.If(Token.is_bar(t), T + CR, z3.If(Token.is_rst(t), T + Token.rst_v(t), T)),
+               "time_bar": z3.If(Token.is_bar(t), 0, z3.If(Token.is_rst(t), TB + Token.rst_v(t), TB)),
+               "cap_total": z3.If(z3.And(Token.is_tsg(t), TB <= 0), capn, CT),
+               "cap_rem": z3.If(Token.is_bar(t), CT, z3.If(Token.is_rst(t), CR - Token.rst_v(t), z3.If(z3.And(Token.is_tsg(t), TB <= 0), capn, CR))),
+               "trk": z3.If(Token.is_trk(t), Token.trk_t(t), z3.If(z3.And(isn, Token.n_ft(t)), Token.n_t(t), TR)),
+               "val": z3.If(Token.is_val(t), Token.val_v(t), z3.If(z3.And(isn, Token.n_fv(t)), Token.n_v(t), VA)),
+               "vel": z3.If(Token.is_vel(t), Token.vel_v(t), z3.If(z3.And(isn, Token.n_fw(t)), Token.n_w(t), VE))}
+        return [z3.ForAll([k], z3.Implies(k >= 0, F[c](k + 1) == nxt[c]), patterns=[F[c](k + 1)]) for c in COMPS]
+    j = z3.Int("j")
+    ax = axioms(FA, A) + axioms(FB, Bq) + [FA[c](0) == FB[c](0) for c in COMPS] + [z3.ForAll([j], z3.Implies(z3.And(0 <= j, j < n), A[j] == Bq[j]))]
+    same = lambda x: z3.And([FA[c](x) == FB[c](x) for c in COMPS])
+    return [("base", ax, same(z3.IntVal(0)), "k = 0"), ("step", ax + [0 <= b, b < n, same(b)], same(b + 1), "k -> k+1")]
+
+
+@specfun
+def cap_equal_lemma(X, st, e):
+    """instance of lemma tdiv_frac for bar capacities: a signature n/d and its eighth-note form s/8 with s*d == 8*n give the same
+    capacity int(ppqn*4*n/d) == int(ppqn*4*s/8)"""
+    selfv = X.ev(e.args[0], st)
+    n, d, s_ = (X.ev(a, st).v for a in e.args[1:4])
+    st0 = st.cp()
+    st0.meta = dict(st.meta)
+    st0.meta.pop("old_heap", None)
+    c1, c2 = _cap(X, st0, selfv, n, d), _cap(X, st0, selfv, s_, z3.IntVal(8))
+    ppqn = X.read_field(st, selfv, "ppqn").v
+    return BoolV(z3.Implies(z3.And(s_ * d == 8 * n, d > 0, n >= 0, s_ >= 0, ppqn > 0), c1 == c2))
+
+
+@specfun
+def sget(X, st, e):
+    """state_dict.get(key, default) for an optional dict"""
+    d = X.ev(e.args[0], st)
+    key = e.args[1].value
+    default = X.ev(e.args[2], st)
+    if isinstance(d, NoneV):
+        return default
+    ent = d.get(key)
+    if ent is None:
+        return default
+    pres = ent[0]
+    if d.none is not None:
+        pres = z3.And(z3.Not(d.none), pres)
+    return X.ite(pres, ent[1], default)
+
+
+# ---------------------------------------------------------------------------------------------- bin_velocity / front end (A)
+contract("bin_velocity", params={"velocity": "int", "bins": "list:int?"}, result="int", pure=True, trusted=True,
+         note="numpy.digitize(v, bins, right=True) on an increasing list: the least index i with v <= bins[i] (len(bins) if none)",
+         requires=["not is_none(bins)"],
+         ensures=[("index", "0 <= result and result <= len(bins)"),
+                  ("least", "implies(result < len(bins), velocity <= bins[result]) and implies(result > 0, bins[result - 1] < velocity)")],
+         props=["C01", "C02"])
+
+FIRST = "result[k].g_msgs[0]"
+contract("Sequence.get_interleaved_message_pairings", params={"self": "ref:Sequence", "message_types": "list:int?", "standard_length": "int", "impute_notes": "bool"},
+         result="list:ref:Pairing", allocates=True, trusted=True,
+         note="front end of tokenise (C01.d): after set_channel(i) / merge, the interleaved pairings are the piece's notes (NOTE_ON, NOTE_OFF) in onset order, its time signatures and the end markers; validated by the bounded tier",
+         requires=[], modifies=dict({"@msgfields": "*", "@lists": "*", "_messages": "*", "_abs": "*", "_rel": "*", "_abs_stale": "*", "_rel_stale": "*"}),
+         ensures=[("pairings", f"forall(0, len(result), lambda k: not is_none(result[k]) and len(result[k].g_msgs) >= 1 and not is_none({FIRST}.message_type)"
+                               f" and ({FIRST}.message_type == MessageType.NOTE_ON or {FIRST}.message_type == MessageType.TIME_SIGNATURE or {FIRST}.message_type == MessageType.INTERNAL)"
+                               f" and not is_none(result[k].g_channel) and {FIRST}.channel == result[k].g_channel and not is_none({FIRST}.channel)"
+                               f" and not is_none({FIRST}.time) and {FIRST}.time >= 0"
+                               f" and implies({FIRST}.message_type == MessageType.NOTE_ON, len(result[k].g_msgs) == 2 and not is_none({FIRST}.note) and not is_none({FIRST}.velocity) and 0 <= {FIRST}.velocity and {FIRST}.velocity <= 127"
+                               f"             and not is_none(result[k].g_msgs[1].time) and result[k].g_msgs[1].time >= {FIRST}.time and 0 <= result[k].g_channel)"
+                               f" and implies({FIRST}.message_type == MessageType.TIME_SIGNATURE, not is_none({FIRST}.numerator) and not is_none({FIRST}.denominator) and {FIRST}.numerator >= 0 and {FIRST}.denominator > 0))"),
+                  ("onset_order", "forall(0, len(result), lambda a: forall(a, len(result), lambda b: result[a].g_msgs[0].time <= result[b].g_msgs[0].time))")],
+         props=["C01", "C02", "C03"])
+contract("Sequence.merge", params={"self": "ref:Sequence", "sequences": "list:ref:Sequence"}, allocates=True, trusted=True,
+         note="wrapper over AbsoluteSequence.merge + normalise; its effect on the music is C15 (bounded)", requires=[],
+         modifies=dict({"@msgfields": "*", "@lists": "*", "_messages": "*", "_abs": "*", "_rel": "*", "_abs_stale": "*", "_rel_stale": "*"}), ensures=[], props=["C01"])
+
+# ---------------------------------------------------------------------------------------------- tokenise  (C01.a/b/h, C02.c, C03.a)
+SD_KEYS = "cur_time,cur_time_bar,cur_time_signature_numerator,cur_time_signature_denominator,cur_bar_capacity_remaining,prv_track,prv_value,prv_velocity"
+N0, D0 = "DEFAULT_TIME_SIGNATURE_NUMERATOR", "DEFAULT_TIME_SIGNATURE_DENOMINATOR"
+CAP_IN = f"int(self.ppqn * 4 * sget(state_dict, 'cur_time_signature_numerator', {N0}) / sget(state_dict, 'cur_time_signature_denominator', {D0}))"
+STATE_IN = (f"sget(state_dict, 'cur_time', 0) == g_time and sget(state_dict, 'cur_time_bar', 0) == g_time_bar and {CAP_IN} == g_cap_total"
+            f" and sget(state_dict, 'cur_bar_capacity_remaining', {CAP_IN}) == g_cap_rem"
+            " and (sget(state_dict, 'prv_track', -1) == -1 or sget(state_dict, 'prv_track', -1) == g_trk)"
+            " and (sget(state_dict, 'prv_value', -1) == -1 or sget(state_dict, 'prv_value', -1) == g_val)"
+            " and (sget(state_dict, 'prv_velocity', -1) == -1 or sget(state_dict, 'prv_velocity', -1) == g_vel)"
+            f" and sget(state_dict, 'cur_time_signature_denominator', {D0}) > 0 and sget(state_dict, 'cur_time_signature_numerator', {N0}) >= 0 and g_time >= 0")
+TOKS = "tokens"
+TOK_INV = f"forall(0, len({TOKS}), lambda q: tok_ok(self, {TOKS}[q]))"
+CLOCK_G = (f"cur_time == dfold_g(self, {TOKS}, len({TOKS}), 'time') and cur_time_bar == dfold_g(self, {TOKS}, len({TOKS}), 'time_bar')"
+           f" and cur_bar_capacity_total == dfold_g(self, {TOKS}, len({TOKS}), 'cap_total') and cur_bar_capacity_remaining == dfold_g(self, {TOKS}, len({TOKS}), 'cap_rem')")
+RUN_G = (f"(prv_track == -1 or prv_track == dfold_g(self, {TOKS}, len({TOKS}), 'trk')) and (prv_value == -1 or prv_value == dfold_g(self, {TOKS}, len({TOKS}), 'val'))"
+         f" and (prv_velocity == -1 or prv_velocity == dfold_g(self, {TOKS}, len({TOKS}), 'vel'))")
+CFG_TOK = (CFG_OK + " and self.num_tracks >= 1 and self.num_tracks <= 100 and len(self.step_sizes) >= 1 and len(self.velocity_bins) >= 1"
+           " and forall(0, len(self.note_values), lambda q: self.note_values[q] >= 0) and forall(0, len(self.velocity_bins), lambda q: self.velocity_bins[q] >= 0) and self.pitch_range[0] >= 0"
+           " and self.velocity_bins[len(self.velocity_bins) - 1] >= 127")
+NOFRAME_ALL = dict(NOFRAME, **{"@alloc": "*"})
+contract(f"{TK}.tokenise",
+         params={"self": f"ref:{TK}", "sequences_bar": "list:ref:Sequence", "insert_bar_token": "bool", "flag_running_time_signature": "bool", "state_dict": f"dict:{SD_KEYS}?"},
+         ghost={"g_time": "int", "g_time_bar": "int", "g_cap_total": "int", "g_cap_rem": "int", "g_trk": "int", "g_val": "int", "g_vel": "int"},
+         result="list:tok", allocates=True, local_types={"tokens": "list:tok"},
+         cases=[f"self.flag_running_values == {a} and self.flag_fuse_track == {b} and self.flag_fuse_value == {c} and self.flag_fuse_velocity == {d}"
+                for a in (False, True) for b in (False, True) for c in (False, True) for d in (False, True)],
+         requires=[CFG_TOK, "insert_bar_token", STATE_IN],
+         modifies=dict(NOFRAME),
+         raises={"NotImplementedError": "not flag_running_time_signature", "TokenisationException": "True"},
+         assume_pre=["Sequence.set_channel", "Sequence.__init__", "Sequence.merge", "Sequence.get_interleaved_message_pairings"],
+         ensures=[("emitted_tokens_in_vocabulary", "forall(0, len(result), lambda q: tok_ok(self, result[q]))")],
+         asserts=[("note_decodes_to_the_note", "prv_track = msg_channel",
+                   f"dfold_g(self, {TOKS}, len({TOKS}) - 1, 'time') == msg_time and is_note_tok({TOKS}[len({TOKS}) - 1]) and tok_pitch({TOKS}[len({TOKS}) - 1]) == msg_note"
+                   f" and dfold_g(self, {TOKS}, len({TOKS}), 'trk') == msg_channel and dfold_g(self, {TOKS}, len({TOKS}), 'val') == msg_value and dfold_g(self, {TOKS}, len({TOKS}), 'vel') == msg_velocity"),
+                  ("state_is_carried", "return tokens",
+                   "state_dict['cur_time'] == dfold_g(self, tokens, len(tokens), 'time') and state_dict['cur_time_bar'] == dfold_g(self, tokens, len(tokens), 'time_bar')"
+                   " and state_dict['cur_bar_capacity_remaining'] == dfold_g(self, tokens, len(tokens), 'cap_rem')"
+                   " and int(self.ppqn * 4 * state_dict['cur_time_signature_numerator'] / state_dict['cur_time_signature_denominator']) == dfold_g(self, tokens, len(tokens), 'cap_total')"
+                   " and (state_dict['prv_track'] == -1 or state_dict['prv_track'] == dfold_g(self, tokens, len(tokens), 'trk'))"
+                   " and (state_dict['prv_value'] == -1 or state_dict['prv_value'] == dfold_g(self, tokens, len(tokens), 'val'))"
+                   " and (state_dict['prv_velocity'] == -1 or state_dict['prv_velocity'] == dfold_g(self, tokens, len(tokens), 'vel'))")],
+         lemma_at=[("tdiv_frac", "cur_time_signature_numerator = msg_numerator", "cap_equal_lemma(self, msg_numerator, msg_denominator, scaled)")],
+         loops={
+             "L0": dict(fingerprint="for (i, sequence_bar) in enumerate(sequences_bar)", inv=[("nothing_yet", f"len({TOKS}) == 0")]),
+             "L1": dict(fingerprint="for interleaved_pairing in interleaved_pairings", inv=[
+                 ("tokens_in_vocabulary", TOK_INV), ("clock_is_fold", CLOCK_G), ("running_values", RUN_G),
+                 ("signature", "cur_time_signature_denominator > 0 and cur_time_signature_numerator >= 0 and cur_bar_capacity_total == int(self.ppqn * 4 * cur_time_signature_numerator / cur_time_signature_denominator)")]),
+             "L2": dict(fingerprint="while (cur_time_bar > 0 or cur_time < end_time) and cur_bar_capacity_remaining > 0", dec="end_time - cur_time + ite(cur_time_bar > 0, cur_bar_capacity_total + 1, 0)", inv=[
+                 ("tokens_in_vocabulary", TOK_INV), ("clock_is_fold", CLOCK_G), ("running_values", RUN_G)]),
+             "_apply_rest.L0": dict(fingerprint="while buf_rest > 0", dec="buf_rest", inv=[
+                 ("tokens_in_vocabulary", TOK_INV), ("clock_is_fold", CLOCK_G), ("running_values", RUN_G),
+                 ("rest", "buf_rest >= 0 and nxt_rest == min(buf_rest, cur_bar_capacity_remaining)")]),
+         },
+         props=["C01", "C02", "C03"])
